@@ -4,5 +4,6 @@ CONSTANTS
   NW = 2
   Variant = "fixed"
   SubRuns <- [NP2Convert] Yes
+  Faults <- [NP2Convert] Yes
 INVARIANT Consumed
 CHECK_DEADLOCK FALSE
